@@ -143,4 +143,9 @@ def cases(tier):
         mm = m if s.count("precision") < 3 else m - 1  # three precision layers fork 3x per call: one call less keeps the case in budget
         cs.append(dict(name="stack." + "/".join(s), fn=h_stack, params=dict(kinds=list(s), m=mm), profile="real", oblig_timeout_s=120,
                        budget_s=2400, max_paths=400000, weight=len(s) + 3 * s.count("precision")))
+    # bit-precise float64 for the stacks without a precision layer: the objective may return +-inf, -0.0, ...
+    for s in itertools.product(["count", "cutoff", "stats"], repeat=2):
+        cs.append(dict(name="stack.fp." + "/".join(s), fn=h_stack, params=dict(kinds=list(s), m=3), profile="fp", oblig_timeout_s=120, budget_s=900, weight=2))
+    for s in (["count"], ["cutoff"], ["stats"]):
+        cs.append(dict(name="stack.fp." + "/".join(s), fn=h_stack, params=dict(kinds=list(s), m=4), profile="fp", oblig_timeout_s=120, budget_s=900))
     return cs
